@@ -102,6 +102,15 @@ type gateResult struct {
 	Notes    []string         `json:"notes,omitempty"`
 }
 
+// rel releases a stalled gate; a loop that is not waiting there any more is a harness-level failure
+func (d *gdriver) rel() {
+	select {
+	case d.q.release <- struct{}{}:
+	case <-time.After(gateLong):
+		panic("release of a gate timed out: the loop is not waiting at the gate")
+	}
+}
+
 type gdriver struct {
 	q       *gateQ
 	s       quartz.Scheduler
@@ -164,7 +173,7 @@ func (d *gdriver) predictAfterSelect() string {
 // release the stalled gate (if any) and wait for the next arrival; want is the prediction
 func (d *gdriver) step(want string) string {
 	if d.stalled {
-		d.q.release <- struct{}{}
+		d.rel()
 		d.stalled = false
 	}
 	wait := gateLong
@@ -224,7 +233,7 @@ func (d *gdriver) drain(max int) string {
 		if want == "sel" {
 			// the loop is about to enter the select: release first, then look at the real state
 			if d.stalled {
-				d.q.release <- struct{}{}
+				d.rel()
 				d.stalled = false
 			}
 			time.Sleep(2 * time.Millisecond)
@@ -252,8 +261,19 @@ func (d *gdriver) api(call string, f func() error) {
 	d.record(map[string]any{"k": "api", "call": call, "err": es, "q": snapshotQueue(d.q.inner, d.baseN)})
 }
 
-func runGateScenario(sc gateScen) (res gateResult) {
-	res = gateResult{Kind: "gate", Scen: sc}
+func runGateScenario(sc gateScen) gateResult {
+	ch := make(chan gateResult, 1)
+	go func() { ch <- runGateScenario1(sc) }()
+	select {
+	case r := <-ch:
+		return r
+	case <-time.After(40 * time.Second):
+		return gateResult{Kind: "gate", Scen: sc, Error: "scenario did not finish within 40 s (scheduler or harness blocked)", DelayMs: -1}
+	}
+}
+
+func runGateScenario1(sc gateScen) (res gateResult) {
+	res = gateResult{Kind: "gate", Scen: sc, DelayMs: -1}
 	defer func() {
 		if r := recover(); r != nil {
 			res.Error = fmt.Sprint("harness panic: ", r)
@@ -319,10 +339,18 @@ func runGateScenario(sc gateScen) (res gateResult) {
 		case d.jobRel <- struct{}{}:
 		default:
 		}
-		s.Stop()
-		wctx, wc := context.WithTimeout(context.Background(), 5*time.Second)
-		s.Wait(wctx)
-		wc()
+		done := make(chan struct{})
+		go func() {
+			s.Stop()
+			wctx, wc := context.WithTimeout(context.Background(), 5*time.Second)
+			s.Wait(wctx)
+			wc()
+			close(done)
+		}()
+		select {
+		case <-done:
+		case <-time.After(8 * time.Second):
+		}
 	}()
 	// ---- reach the parked situation ----
 	first := d.step("Size")
@@ -400,7 +428,11 @@ func runGateScenario(sc gateScen) (res gateResult) {
 	res.DueKey = dueKey
 	// ---- let the loop run until it parks again ----
 	if sc.Sit == "mid" {
-		d.jobRel <- struct{}{} // the blocking job returns
+		select {
+		case d.jobRel <- struct{}{}: // the blocking job returns
+		case <-time.After(gateLong):
+			panic("the blocking job is not waiting for its release")
+		}
 		d.record(map[string]any{"k": "jobend", "key": "blk"})
 	}
 	var g string
@@ -416,7 +448,7 @@ func runGateScenario(sc gateScen) (res gateResult) {
 	okExec := d.log.waitFor(dueKey, 1, 3*time.Second)
 	if !okExec {
 		// give a lost wake-up every chance to show itself as a delay instead: keep releasing gates for a while
-		for i := 0; i < 3 && !okExec; i++ {
+		for i := 0; i < 1 && !okExec; i++ {
 			d.drain(10)
 			okExec = d.log.waitFor(dueKey, 1, time.Second)
 		}
@@ -459,7 +491,7 @@ func (d *gdriver) drainFrom(last string) string {
 		}
 		if want == "sel" {
 			if d.stalled {
-				d.q.release <- struct{}{}
+				d.rel()
 				d.stalled = false
 			}
 			time.Sleep(2 * time.Millisecond)
@@ -537,6 +569,7 @@ func cmdGate() {
 		scs = pick
 	}
 	par := 6
+	var failed atomic.Int64
 	ch := make(chan gateScen)
 	var wg sync.WaitGroup
 	for w := 0; w < par; w++ {
@@ -544,7 +577,14 @@ func cmdGate() {
 		go func() {
 			defer wg.Done()
 			for sc := range ch {
-				emit(runGateScenario(sc))
+				if failed.Load() >= 12 {
+					continue // enough evidence; the remaining scenarios would only wait for their deadlines
+				}
+				r := runGateScenario(sc)
+				if r.Error != "" || r.DueExecs != 1 {
+					failed.Add(1)
+				}
+				emit(r)
 			}
 		}()
 	}
@@ -635,18 +675,23 @@ func runFree(seed, iter int) freeResult {
 	s.(*quartz.StdScheduler).Reset()
 	time.Sleep(time.Duration(r.intn(3000)) * time.Microsecond)
 	t0 := time.Now()
-	switch call {
-	case "schedule":
-		s.ScheduleJob(job("x", true), relTrigger(-time.Millisecond, 7*hour))
-	case "replace":
-		jd := quartz.NewJobDetailWithOptions(job("rep", true).Job(), quartz.NewJobKey("rep"), &quartz.JobDetailOptions{Replace: true, RetryInterval: time.Second})
-		s.ScheduleJob(jd, relTrigger(-time.Millisecond, 7*hour))
-	case "resume":
-		s.ResumeJob(quartz.NewJobKey("pz"))
-	}
-	if r.intn(2) == 0 {
-		s.DeleteJob(quartz.NewJobKey("far"))
-	}
+	del := r.intn(2) == 0
+	apiDone := make(chan struct{})
+	go func() {
+		defer close(apiDone)
+		switch call {
+		case "schedule":
+			s.ScheduleJob(job("x", true), relTrigger(-time.Millisecond, 7*hour))
+		case "replace":
+			jd := quartz.NewJobDetailWithOptions(job("rep", true).Job(), quartz.NewJobKey("rep"), &quartz.JobDetailOptions{Replace: true, RetryInterval: time.Second})
+			s.ScheduleJob(jd, relTrigger(-time.Millisecond, 7*hour))
+		case "resume":
+			s.ResumeJob(quartz.NewJobKey("pz"))
+		}
+		if del {
+			s.DeleteJob(quartz.NewJobKey("far"))
+		}
+	}()
 	res := freeResult{Kind: "free", Iter: iter, Call: call, Mode: mode, Delay: -1, DelayMs: -1, Seed: seed}
 	select {
 	case t := <-ran:
@@ -655,10 +700,20 @@ func runFree(seed, iter int) freeResult {
 	case <-time.After(4 * time.Second):
 	}
 	cancel()
-	s.Stop()
-	wctx, wc := context.WithTimeout(context.Background(), 3*time.Second)
-	s.Wait(wctx)
-	wc()
+	// shutdown under a watchdog: a scheduler that deadlocks must not take the harness with it
+	fin := make(chan struct{})
+	go func() {
+		<-apiDone
+		s.Stop()
+		wctx, wc := context.WithTimeout(context.Background(), 3*time.Second)
+		s.Wait(wctx)
+		wc()
+		close(fin)
+	}()
+	select {
+	case <-fin:
+	case <-time.After(6 * time.Second):
+	}
 	return res
 }
 
